@@ -192,6 +192,14 @@ func cmdCheck(args []string) int {
 			units = append(units, w.verifyOrder(sp))
 		}
 	}
+	for _, sp := range w.cs.positions {
+		if prop == "" || contains(sp.Props, prop) {
+			if cfg.only != "" && !strings.Contains("positions", cfg.only) {
+				continue
+			}
+			units = append(units, w.verifyPositions(sp))
+		}
+	}
 	for _, cl := range w.cs.classified {
 		if prop == "" || contains(cl.Props, prop) {
 			if cfg.only != "" && !strings.Contains(cl.Type, cfg.only) {
